@@ -1,7 +1,7 @@
 // REPLAY property=C08 harness=c08_visibility_blacklist_4ops flavour=s package=bevy_replicon
 // harness file: harness/s/src/server/client_visibility.rs (appended to src/server/client_visibility.rs of the twin)
 // failed check: assertion failed: lost[i] == ((last[i] && !now[i]) || pending[i]) @ harness:src/server/client_visibility.rs in server::client_visibility::verif_kani::run_ops
-// native result: 1 of 1 generated tests panic natively (dev profile): /tmp/verif-C08-0cvkxgwj/twin-s/verif_harness/s/src/server/client_visibility.rs:59:21: assertion failed: lost[i] == ((last[i] && !now[i]) || pending[i])
+// native result: 1 of 1 generated tests panic natively (dev profile): /tmp/verif-C08-bt_b8sta/twin-s/verif_harness/s/src/server/client_visibility.rs:59:21: assertion failed: lost[i] == ((last[i] && !now[i]) || pending[i])
 // rerun: /verif/check --replay /verif/replays/C08/c08_visibility_blacklist_4ops.rs
 // The #[test] functions below feed the solver's concrete values to the harness body
 // (kani::concrete_playback_run) and execute the real code natively.
@@ -11,14 +11,14 @@
 /// Check for `assertion`: "assertion failed: lost[i] == ((last[i] && !now[i]) || pending[i])"
 
 #[test]
-fn kani_concrete_playback_c08_visibility_blacklist_4ops_13177307416118273840() {
+fn kani_concrete_playback_c08_visibility_blacklist_4ops_11583353212311229848() {
     let concrete_vals: Vec<Vec<u8>> = vec![
         // 1
         vec![1],
-        // 1ul
-        vec![1, 0, 0, 0, 0, 0, 0, 0],
-        // 2
-        vec![2],
+        // 0ul
+        vec![0, 0, 0, 0, 0, 0, 0, 0],
+        // 1
+        vec![1],
         // 1ul
         vec![1, 0, 0, 0, 0, 0, 0, 0],
         // 2
